@@ -182,6 +182,8 @@ inductive Elem where
   | write (t : Tpl)                              -- `Write(t)`
   | cache (t : Tpl)                              -- `Cache(t)`
   | data                                         -- an ordinary element (no static-context methods)
+  | mut (k : Nat) (ks : List Nat) (l : Leaf)     -- an ordinary element that updates the *run-time* context of
+                                                 -- every value in place: `update_recursively(context, "k.ks", l)`
   | src                                          -- first element of a `Source`
   deriving Repr
 
@@ -229,6 +231,7 @@ inductive St where
   | write (t : Tpl) (name : Option Leaf)         -- `output_directory`; `none`: still the unformatted string
   | cache (t : Tpl) (name : Option Leaf)         -- `_filename`
   | data
+  | mut (k : Nat) (ks : List Nat) (l : Leaf)
   | src
   | seq (kind : Kind) (cs : List St) (sc : SC)
   | split (bs : List St)
@@ -237,6 +240,7 @@ inductive St where
 /-- `hasattr(el, "_set_context")` -/
 def St.hasSet : St → Bool
   | .data => false
+  | .mut .. => false
   | .src => false
   | _ => true
 
@@ -300,6 +304,7 @@ def setCtx (n : Nat) : St → Ctx → St × Option Nat
   | .write t nm, c => (.write t (nameUpdate t nm c), none)
   | .cache t nm, c => (.cache t (nameUpdate t nm c), none)
   | .data, _ => (.data, none)
+  | .mut k ks l, _ => (.mut k ks l, none)
   | .src, _ => (.src, none)
   | .seq kind cs sc, c =>                            -- lena_sequence.py 95-133
     match loop n cs c with
@@ -343,6 +348,7 @@ def initElem (n : Nat) : Elem → St
   | .write t => .write t none
   | .cache t => .cache t none
   | .data => .data
+  | .mut k ks l => .mut k ks l
   | .src => .src
 
 /-- `LenaSequence.__init__`: `try: self._set_context({}) except LenaKeyError: pass` on elements that are
@@ -378,6 +384,7 @@ def Tree.hasGet : Tree → Bool
 /-- `hasattr(el, "_set_context")` -/
 def Tree.hasSet : Tree → Bool
   | .leaf .data => false
+  | .leaf (.mut ..) => false
   | .leaf .src => false
   | _ => true
 
@@ -497,6 +504,7 @@ mutual
 def run (n : Nat) (ok : OutKeys) (srcFlow : List Item) : St → List Item → Option (List Item)
   | .ucfs c, f => some (f.map fun it => (it.1, updL it.2 c))   -- meta/elements.py 132-138
   | .mkf t c, f => f.mapM fun it => (mkfCall n ok t c it.2).map fun x => (it.1, x)
+  | .mut k ks l, f => some (f.map fun it => (it.1, updL it.2 (single n k ks l)))
   | .src, _ => some srcFlow
   | .seq _ cs _, f => runL n ok srcFlow cs f
   | .split bs, f => if bs.isEmpty then some f else runB n ok srcFlow bs f
@@ -535,6 +543,7 @@ def leafFinal (n : Nat) : Elem → Ctx → St
   | .write t, x => .write t (if nonEmpty x = true then nameUpdate t none x else none)
   | .cache t, x => .cache t (if nonEmpty x = true then nameUpdate t none x else none)
   | .data, _ => .data
+  | .mut k ks l, _ => .mut k ks l
   | .src, _ => .src
 
 /-! ## positions -/
@@ -602,6 +611,7 @@ def runRef (n : Nat) (ok : OutKeys) (src : List Item) : Tree → Ctx → List It
   | .leaf (.write _), _, f => some f
   | .leaf (.cache _), _, f => some f
   | .leaf .data, _, f => some f
+  | .leaf (.mut k ks l), _, f => some (f.map fun it => (it.1, updL it.2 (single n k ks l)))
   | .seq _ cs, c, f => runRefL n ok src cs c f
   | .split bs, c, f => if bs.isEmpty then some f else runRefB n ok src bs c f
 def runRefL (n : Nat) (ok : OutKeys) (src : List Item) : List Tree → Ctx → List Item → Option (List Item)
@@ -622,8 +632,8 @@ def runRefB (n : Nat) (ok : OutKeys) (src : List Item) : List Tree → Ctx → L
 end
 
 mutual
-/-- the flow through a program that ignores static context altogether -/
-def runPlain (src : List Item) : Tree → List Item → List Item
+/-- the flow through a program that ignores static context altogether (run-time elements still act) -/
+def runPlain (n : Nat) (src : List Item) : Tree → List Item → List Item
   | .leaf .src, _ => src
   | .leaf (.set ..), f => f
   | .leaf .store, f => f
@@ -632,14 +642,15 @@ def runPlain (src : List Item) : Tree → List Item → List Item
   | .leaf (.write _), f => f
   | .leaf (.cache _), f => f
   | .leaf .data, f => f
-  | .seq _ cs, f => runPlainL src cs f
-  | .split bs, f => if bs.isEmpty then f else runPlainB src bs f
-def runPlainL (src : List Item) : List Tree → List Item → List Item
+  | .leaf (.mut k ks l), f => f.map fun it => (it.1, updL it.2 (single n k ks l))
+  | .seq _ cs, f => runPlainL n src cs f
+  | .split bs, f => if bs.isEmpty then f else runPlainB n src bs f
+def runPlainL (n : Nat) (src : List Item) : List Tree → List Item → List Item
   | [], f => f
-  | t :: ts, f => runPlainL src ts (runPlain src t f)
-def runPlainB (src : List Item) : List Tree → List Item → List Item
+  | t :: ts, f => runPlainL n src ts (runPlain n src t f)
+def runPlainB (n : Nat) (src : List Item) : List Tree → List Item → List Item
   | [], _ => []
-  | b :: bs, f => runPlain src b f ++ runPlainB src bs f
+  | b :: bs, f => runPlain n src b f ++ runPlainB n src bs f
 end
 
 mutual
